@@ -12,17 +12,19 @@ open Bexpr.Eval.Effects
 
 def fromEvaluate (fn : String) : Bool := BexprGen.Effects.reachableFromEvaluate.contains fn
 
-/-- the benign cache site (pinned tree: in `doMatchMatches`; repaired tree: in `precompileRegexps`) -/
-def isRegexpCacheSite (s : String × String × String) : Bool :=
-  s == ("doMatchMatches", "assign-field", "expression.Value.Converted = re") ||
-  s == ("precompileRegexps", "assign-field", "node.Value.Converted = re")
+/-- the benign cache site (pinned tree: in `doMatchMatches`; repaired tree: in `precompileRegexps`),
+    identified by function, kind and source text (whatever its class) -/
+def isRegexpCacheSite (s : Site) : Bool :=
+  let (fn, kind, _, text) := s
+  (fn, kind, text) == ("doMatchMatches", "assign-field", "expression.Value.Converted = re") ||
+  (fn, kind, text) == ("precompileRegexps", "assign-field", "node.Value.Converted = re")
 
 theorem no_shared_write_except_regexp_cache :
     BexprGen.Effects.storeSites.all (fun s => !fromEvaluate s.1 || isLocalSite s || isRegexpCacheSite s) = true := by
   decide +kernel
 
 theorem append_targets_fresh :
-    BexprGen.Effects.appendOrigins.all (fun o => !fromEvaluate o.1 || freshOrigins.contains o) = true := by
+    BexprGen.Effects.appendOrigins.all (fun o => !fromEvaluate o.1 || isFreshOrigin o) = true := by
   decide +kernel
 
 theorem globals_readonly :
